@@ -398,12 +398,16 @@ func TestVerif_C15_DB(t *testing.T) {
 
 		dir, err := os.MkdirTemp("", "c15")
 		if err != nil {
-			rt.Skip(err)
+			fmt.Println("VERIF-INFRA:", err)
+			rec.Label("inconclusive:infrastructure")
+			return
 		}
 		defer os.RemoveAll(dir)
 		d, err := c15OpenScratch(dir)
 		if err != nil {
-			rt.Skip(err)
+			fmt.Println("VERIF-INFRA:", err)
+			rec.Label("inconclusive:infrastructure")
+			return
 		}
 		defer d.Close()
 		if roOpen {
